@@ -29,7 +29,7 @@ type Tick struct {
 }
 
 type Script struct {
-	Side       string `json:"side"` // server | client
+	Side       string `json:"side"` // server | client | client-fallback
 	IntervalNS int64  `json:"interval_ns"`
 	Threshold  int    `json:"threshold"`
 	Pattern    []Tick `json:"pattern"`
@@ -38,7 +38,7 @@ type Script struct {
 
 func genScript(rt *rapid.T) Script {
 	var s Script
-	s.Side = rapid.SampledFrom([]string{"server", "client"}).Draw(rt, "side")
+	s.Side = rapid.SampledFrom([]string{"server", "client", "client-fallback"}).Draw(rt, "side")
 	s.IntervalNS = int64(rapid.SampledFrom([]time.Duration{2 * time.Millisecond, 3 * time.Millisecond, 10 * time.Millisecond, time.Second, 30 * time.Second, time.Hour, 7 * time.Nanosecond * 1000}).Draw(rt, "interval"))
 	s.Threshold = rapid.SampledFrom([]int{-1, 0, 1, 2, 2, 3, 3, 5}).Draw(rt, "threshold")
 	half := s.IntervalNS / 2
@@ -101,7 +101,14 @@ func runInBubble(s Script) (res vt.Result) {
 		manualPing = func(ctx context.Context) error { return ss.Ping(ctx, nil) }
 	default:
 		client := mcp.NewClient(&mcp.Implementation{Name: "c", Version: "1"}, &mcp.ClientOptions{KeepAlive: I, KeepAliveFailureThreshold: s.Threshold})
-		cs, err := memio.ConnectClient(client, sc, "2025-06-18", "")
+		var cs *mcp.ClientSession
+		var err error
+		if s.Side == "client-fallback" {
+			// default (2026-07-28) requested, discover rejected, legacy session via the initialize fallback
+			cs, err = memio.ConnectClientFallback(client, sc, "2025-11-25")
+		} else {
+			cs, err = memio.ConnectClient(client, sc, "2025-06-18", "")
+		}
 		if err != nil {
 			res.Failf("setup: %v", err)
 			return
